@@ -1,12 +1,22 @@
 """Write the prompts for a round of behaviour-preserving-refactor agents (twins): the checks
-must stay silent on every one of their patches."""
+must stay silent on every one of their patches.
+usage: gen_twin_prompts.py [<round letter> [medium <previous twin prefix>]]
+  no argument: the first round (five small edits, worktree suffix t)
+  `w medium twin3`: four medium-sized refactorings per property, of other kinds than the ones
+  recorded in seeded/<previous twin prefix>-<id>-*/meta.json"""
 import json
+import os
+import sys
+
+RND = sys.argv[1] if len(sys.argv) > 1 else "t"
+MEDIUM = len(sys.argv) > 2 and sys.argv[2] == "medium"
+PREV = sys.argv[3] if len(sys.argv) > 3 else None
 
 props = [json.loads(l) for l in open('/verif/properties.jsonl')]
 for p in props:
     pid = p['id']
-    wt = f'/tmp/mut/{pid}t'
-    out = f'/tmp/mut/{pid}t.out'
+    wt = f'/tmp/mut/{pid}{RND}'
+    out = f'/tmp/mut/{pid}{RND}.out'
     text = f"""You are helping test a static-analysis effort by playing the role of a developer who REFACTORS code without changing its behaviour.
 
 The project is `aurel`, a Python numerical-relativity analysis library (lazy, cached tensor calculus on 3D grids with finite-difference derivatives, analytic spacetimes, Einstein Toolkit HDF5 reading). You have your own scratch git worktree of it at `{wt}` (source in `{wt}/src/aurel`, tests in `{wt}/tests`). Work ONLY inside `{wt}` and `{out}`; do not touch /repo, /verif or any other directory, and do not read anything under /verif. IMPORTANT: never use `git stash` (the stash is shared between worktrees and other people are working in sibling worktrees); use `git -C {wt} diff > file` and `git -C {wt} checkout -- .` to save and reset your work.
@@ -39,5 +49,22 @@ For each refactoring k = 1..5:
 Finally write `{out}/meta.json`: a JSON list of 5 objects with keys "file" ("twin<k>.diff"), "kind" (which kind of refactoring), "functions" (edited functions), "why_equivalent" (one or two sentences), "tests_result" (pytest summary line), "equivalence_check" (what you compared and the result). Leave the worktree clean at the end (`git -C {wt} checkout -- .`).
 
 In your final answer list the five refactorings in one line each. Use /venv/bin/python for everything (numpy, scipy, sympy, h5py are installed; there is no network)."""
-    open(f'/tmp/mut/{pid}t.prompt', 'w').write(text)
+    if MEDIUM:
+        prev = []
+        for k in range(1, 6):
+            try:
+                prev.append(json.load(open(f'/verif/seeded/{PREV}-{pid}-{k}/meta.json'))['summary'])
+            except (OSError, KeyError):
+                pass
+        text = text.replace("produce FIVE independent, small, realistic refactorings (each 3-25 changed lines)",
+                            "produce FOUR independent, MEDIUM-SIZED, realistic refactorings (each 15-60 changed lines)")
+        text = text.replace("These are the kinds of edits a maintainer makes during clean-up. Make the five of DIFFERENT kinds, for example:",
+                            "These are the kinds of restructuring a maintainer does when tidying a module: a dispatch table or dictionary instead of an if/elif chain (or the reverse), a helper / generator / small class extracted or several functions merged onto one parameterised helper, module-level constants or namedtuples / dataclasses introduced, a loop nest replaced by itertools / comprehensions / numpy calls that perform the same operations in the same order, a function split into stages, data passed through a small record instead of loose variables, early returns instead of nested ifs, a while loop instead of a for loop with break, functools.partial / operator helpers, string building reorganised. Earlier volunteers already did the following for this property; make yours of OTHER kinds and, where possible, at other sites:\n"
+                            + "\n".join(f"  EARLIER {i + 1}: {t}" for i, t in enumerate(prev))
+                            + "\nSmaller building blocks you may combine:")
+        text = text.replace("For each refactoring k = 1..5:", "For each refactoring k = 1..4:")
+        text = text.replace("a JSON list of 5 objects", "a JSON list of 4 objects")
+        text = text.replace("list the five refactorings", "list the four refactorings")
+    os.makedirs('/tmp/mut', exist_ok=True)
+    open(f'/tmp/mut/{pid}{RND}.prompt', 'w').write(text)
 print('ok')
